@@ -204,6 +204,20 @@ check(
     "DESIGN.md §4 C18",
 )
 
+check(
+    "C19", "exploration",
+    "A cooperative scheduler (sys.settrace: every executed line of library / generated code is a yield point) runs 2-3 "
+    "worker threads under generated schedules over 7 racing scenarios (first calls, cache misses, call_next chains, "
+    "dependent dispatchers, method access): all single-pre-emption schedules (thorough; every 5th in quick), sampled "
+    "schedules with up to 3 pre-emptions, and auxiliary OS-thread stress; each thread's outcome and a probe set "
+    "afterwards must equal the sequential outcome on a fresh function. Locks found on the objects under test are "
+    "replaced by cooperative ones so that the schedule stays harness-owned.",
+    "Line-granularity interleavings of library code with bounded pre-emptions; no bytecode-level, free-threaded or "
+    "C-level races; only fully defined functions.",
+    "schedule exploration with a harness-owned cooperative scheduler (exhaustive single pre-emptions + Hypothesis)",
+    "DESIGN.md §4 C19",
+)
+
 ALL = [f"C{i:02d}" for i in range(1, 21)]
 REASON_PENDING = "check not built yet in this revision of /verif (work in progress; see DESIGN.md §8)"
 
